@@ -279,7 +279,12 @@ func runL2Script(script []c18Op) (trace string, maxLeaving int, oracleUpdates in
 	if err := l2.K.UpdateHostValidatorSet(l2.Ctx, c15ClientID, 5, set); err != nil {
 		panic(err)
 	}
+	// L1 timestamps of 2023 or of 2100, chosen by the script
 	ts := int64(1_700_000_000_000_000_000)
+	if len(script) > 0 && script[0].A%2 == 1 {
+		ts = 4_102_444_800_000_000_000
+	}
+	maxApplied := int64(0) // highest L1 timestamp of an applied oracle update
 	denoms := []string{"l2/aa", "l2/bb"}
 	bases := []string{"uinit", "uusdc"}
 	if err := l2.BeginBlock(); err != nil {
@@ -359,6 +364,14 @@ func runL2Script(script []c18Op) (trace string, maxLeaving int, oracleUpdates in
 				err := l2.K.RegisterExecutorChangePlan(uint64(planN), uint64(h), sdk.ValAddress(henv.MakeUser(fmt.Sprintf("c18-planop-%d", planN)).Addr).String(), "plan", string(bz), "", []string{exec.Str, users[(op.A+planN)%4].Str})
 				fmt.Fprintf(&sb, "%s height%+d => %v\n", op, off, err)
 			}
+		case "params":
+			// a parameter update whose address lists contain repeats (accepted as they are)
+			p, _ := l2.K.GetParams(l2.Ctx)
+			p.BridgeExecutors = []string{exec.Str, users[op.A%4].Str, users[(op.A+1)%4].Str, exec.Str, users[(op.A+2)%4].Str, users[op.A%4].Str}
+			p.FeeWhitelist = []string{users[op.B%4].Str, users[(op.B+1)%4].Str, users[op.B%4].Str, users[(op.B+3)%4].Str}
+			emit(op, l2.Deliver(opchildtypes.NewMsgUpdateParams(l2.Authority, &p)))
+			q, _ := l2.K.GetParams(l2.Ctx)
+			fmt.Fprintf(&sb, "PARAMS executors=%v whitelist=%v\n", q.BridgeExecutors, q.FeeWhitelist)
 		case "deposit":
 			seq, _ := l2.K.GetNextL1Sequence(l2.Ctx)
 			to := users[op.A%4].Str
@@ -413,6 +426,13 @@ func runL2Script(script []c18Op) (trace string, maxLeaving int, oracleUpdates in
 			emit(op, r)
 			if r.OK() {
 				oracleUpdates++
+				if ts > maxApplied {
+					maxApplied = ts
+				}
+			} else if op.B%5 != 4 && ts > maxApplied {
+				// at least three of four validators signed correctly and the timestamp is newer than everything applied:
+				// that this update is accepted follows from the script alone
+				fmt.Fprintf(&sb, "UNEXPECTED-REFUSAL of %s: %v\n", op, r.Err)
 			}
 		}
 	}
@@ -436,7 +456,7 @@ func genL2Script(rt *rapid.T) []c18Op {
 	var s []c18Op
 	n := rapid.IntRange(15, 50).Draw(rt, "len")
 	for i := 0; i < n; i++ {
-		k := drawWeighted(rt, "op", []weighted{{"add", 5}, {"remove", 4}, {"block", 5}, {"deposit", 5}, {"withdraw", 3}, {"oracle", 3}, {"plan", 2}})
+		k := drawWeighted(rt, "op", []weighted{{"add", 5}, {"remove", 4}, {"block", 5}, {"deposit", 5}, {"withdraw", 3}, {"oracle", 3}, {"plan", 2}, {"params", 1}})
 		op := c18Op{Kind: k, A: rapid.IntRange(0, 11).Draw(rt, "a"), B: rapid.IntRange(0, 11).Draw(rt, "b"), C: int64(rapid.IntRange(0, 1000).Draw(rt, "c"))}
 		if k == "deposit" && rapid.IntRange(0, 3).Draw(rt, "hook") == 0 {
 			op.S = "hook"
@@ -510,6 +530,13 @@ func TestC18Rapid(t *testing.T) {
 				traces, leaving, oracle = append(traces, tr), l, o
 			}
 			c18Compare(rt, "L2", script, traces)
+			if k := strings.Index(traces[0], "UNEXPECTED-REFUSAL"); k >= 0 {
+				line := traces[0][k:]
+				if nl := strings.Index(line, "\n"); nl >= 0 {
+					line = line[:nl]
+				}
+				rt.Fatalf("C18 violated: the outcome of a message does not follow from the script: %s\nscript: %v", line, script)
+			}
 			c18Digest("L2", traces[0])
 			c.Class("L2")
 			if leaving >= 2 {
